@@ -83,6 +83,7 @@ type Pos struct {
 	InMap           bool           // this node is a map value / additional property
 	ParentNoMethods bool           // property of an object emitted as an inline struct without unmarshal method
 	InNamedArr      bool           // item of an array that is itself a named definition / the root
+	InMapArr        bool           // item of an (inline) array that is the value of a pure map: emitted inline below the map type
 	UnionDeclared   map[string]any // evaluating an allOf / anyOf branch: properties declared by any branch (the generated struct has them all)
 	DefStack        []string       // definitions (file#name) whose evaluation encloses this node: a $ref to one of them is a cycle
 	RefBranch       bool           // inside an allOf / anyOf branch that is a $ref to a definition (the definition's schema is visited a second time by the merge)
@@ -745,6 +746,7 @@ func (m *Model) array(s S, v []any, p Pos) Verdict {
 	ip.Named = false
 	ip.ArrDepth = p.ArrDepth + 1
 	ip.InNamedArr = p.Named || p.InNamedArr
+	ip.InMapArr = !p.Named && (p.Kind == "mapval" || p.InMapArr)
 	ip.InMap = false
 	ip.ParentNoMethods = false
 	if p.ArrDepth == 0 || p.Outer == nil {
@@ -881,7 +883,7 @@ func noMethodsStruct(p Pos) bool {
 	if p.Named {
 		return false
 	}
-	return (p.Kind == "item" && p.InNamedArr) || p.Kind == "mapval"
+	return (p.Kind == "item" && (p.InNamedArr || p.InMapArr)) || p.Kind == "mapval"
 }
 
 // unenforced consults the attachment-matrix deviations: constraint family fam
@@ -898,8 +900,8 @@ func (m *Model) unenforced(p Pos, fam string, s S) bool {
 	case p.Named:
 	case fam == "required":
 		switch {
-		case p.Kind == "mapval":
-			name = "UNENFORCED_MAPVAL_REQUIRED"
+		case p.Kind == "mapval" || (p.Kind == "item" && p.InMapArr):
+			name = "UNENFORCED_MAPVAL_REQUIRED" // objects anywhere below a pure map's value are inline structs without methods
 		case p.Kind == "item" && p.InNamedArr:
 			name = "UNENFORCED_NAMED_ARRAY_ITEM_REQUIRED"
 		}
